@@ -59,16 +59,38 @@ new round starts; in a complete round the other is advanced unless a removal
 makes it lose its turn, which moves it one place forward in the round and so
 happens fewer than nmax times.  The unchanged code stays 2 below this bound.
 
-Two predicted defects of the unchanged tree have dedicated clauses with their
-own signatures (see KNOWN below); the config knob `avoid_known` (3 of 4
-runs) keeps their preconditions from arising so that every other clause is
-exercised on full-length runs.  A third one, found by the re-entrant family
+In-next family (knob `inner_p`, half of the runs; round 6): the application code
+closest to the Cooperator is the iterator itself.  In 10% or 30% of the next()
+calls (at most 6 per run) the iterator, before it answers, performs 1..2
+tape-chosen operations: pause() or stop() of its OWN task, or any operation
+of the re-entrant family on the others (add, resume, fire/fail, pause, stop,
+whenDone, operation on a finished task, Cooperator.stop()).  The model is
+updated first, so the same clauses judge the rest of the tick: a task that
+paused itself is not advanced again until it is resumed (also when its
+next() went on to yield a Deferred), one that stopped itself never again; its
+Deferreds fire once, with the stop reason.  A task finished while its own
+next() is on the stack keeps that outcome whatever the next() then ends with
+(knob `end_after_finish`: StopIteration, an exception, a Deferred; otherwise a
+plain value) - the clause finished-in-own-next, see KNOWN_IN_NEXT.
+
+Iterator shapes (knob `odd_iter_w`, half of the runs): besides the plain
+iterator object, classes with __len__ (items to come: 0 and hence false once
+exhausted), __bool__ (false throughout) and __eq__ (equal to everything).
+The statement quantifies over any iterators and the result on exhaustion is
+the caller's own object, whatever its truth value or equality.
+
+Two predicted defects of the tree as first examined have dedicated clauses
+with their own signatures (see KNOWN below); the config knob `avoid_known`
+(now 0.15 of the runs, kept for dev-time comparison) keeps their preconditions
+from arising.  A third one, found by the re-entrant family
 (a callback completes a pending task itself: stop(), or pause()+resume()),
 has the clause coop-stop-reentrant and the knob `stop_pending` (1 of 4 runs),
-see KNOWN_REENTRANT.  All three are fixed in /repo.
+see KNOWN_REENTRANT.  A fourth, found by the in-next family (a task finished
+from inside its own next()), has the clause finished-in-own-next and the knob
+END_AFTER_FINISH_P (1 of 4 runs), see KNOWN_IN_NEXT.  All four are REPAIRED in
+/repo (4620a5f, 2719e45, 19f183d).
 """
 import asyncio
-import os
 
 from twisted.internet import defer, task
 from twisted.python.failure import Failure
@@ -97,15 +119,25 @@ RULE = ("run = up to 8 scripted iterators on one Cooperator (units per tick 1..5
         "re-enters the Cooperator with 1..2 operations (add, resume, fire/fail, pause, stop, whenDone, operation on a finished task, "
         "Cooperator.stop, pause - and with knob stop_pending (1 of 4 runs) stop or pause+resume - of a task a Cooperator.stop() in progress "
         "has not reached yet) from wherever the task completes "
-        "(tick, task.stop(), Deferred firing, resume() on a stopped Cooperator, Cooperator.stop()); non-trivial = at least 2 tasks, 3 ticks "
+        "(tick, task.stop(), Deferred firing, resume() on a stopped Cooperator, Cooperator.stop()); in half of the runs 10% or 30% of the "
+        "next() calls (at most 6 per run) first issue 1..2 such operations themselves, pause()/stop() of the iterator's own task included "
+        "(knob end_after_finish: a next() inside which its task was finished ends with StopIteration / an exception / a Deferred instead of a "
+        "plain value); in half of the runs iterator objects also have __len__ (0 once exhausted), __bool__ (False) or __eq__ (always True); non-trivial = at least 2 tasks, 3 ticks "
         "and one of (pause+resume, a yielded Deferred fired, a task stopped, Cooperator.stop)")
 ASSUMPTIONS = ["starvation (relative form): two tasks runnable side by side without interruption - the one is advanced at most nmax+1 times before "
                "the other is advanced once (nmax = most tasks runnable at once in that time); proven for round-robin service whose position "
                "survives removals, 2 above what the unchanged code reaches; the order in which tasks are served is not judged",
                "an iterator may raise, and a yielded Deferred may fail with, any BaseException (drawn: ScriptError, a harness BaseException subclass, "
                "asyncio.CancelledError, KeyboardInterrupt, SystemExit); GeneratorExit is not drawn",
-               "operations are issued between ticks or from inside whenDone/coiterate callbacks (wherever those fire), not from inside next(); "
-               "scheduler ticks and Cooperator.start() are never issued from inside a callback (start() from inside a running stop() is outside the statement)",
+               "operations are issued between ticks, from inside whenDone/coiterate callbacks (wherever those fire) and from inside next() of an "
+               "iterator (on its own task: pause() and stop() only); "
+               "scheduler ticks and Cooperator.start() are never issued from inside a callback or a next() (start() from inside a running stop() is outside the statement)",
+               "a task finished while its own next() is on the stack (it stopped itself or the Cooperator, or a completion callback fired from there "
+               "stopped it) is finished from that moment: what that next() then returns or raises does not change its outcome and must not escape "
+               "from the tick; a Deferred it returns then is never fired by the harness",
+               "an unbalanced resume() of a task that waits on a Deferred it yielded is a caller error (DESIGN section 6) and not issued "
+               "(constant UNBALANCED_RESUME_W = 0; the unchanged code accepts it and advances the task early)",
+               "iterator objects may define __len__, __bool__ and __eq__; the Cooperator's results are compared by identity",
                "a task that was running when Cooperator.stop() began and that stop() has not completed yet may accept pause() or reject it with a "
                "SchedulerError; if a callback stop()s it first, TaskStopped and SchedulerStopped are both accepted as its stop reason (knob stop_pending only)",
                "resume() is only issued to balance an earlier user pause(), or on an unpaused task (must raise NotPaused)",
@@ -113,18 +145,40 @@ ASSUMPTIONS = ["starvation (relative form): two tasks runnable side by side with
                "(not a TaskFinished subtype) from pause()/stop()",
                "tasks that are paused or waiting on a Deferred when Cooperator.stop() is called are completed (SchedulerStopped) only when they would re-enter the stopped Cooperator"]
 
-# Dedicated signatures of the two predicted defects (DESIGN section 8).
+# Dedicated signatures of the two predicted defects (DESIGN section 8); both REPAIRED in /repo 4620a5f.
 KNOWN = ["C11:coop-stop-completes-all:skipped", "C11:stopped-state-stable:late-deferred-failure"]
 
 MAX_TASKS = 8
 
-# Genuine defect found by the re-entrant family (since fixed in /repo: "Cooperator.stop() skips tasks that a callback completed
+# Genuine defect found by the re-entrant family (REPAIRED in /repo 2719e45: "Cooperator.stop() skips tasks that a callback completed
 # while it was completing the others"): a completion callback fired by Cooperator.stop() that completes a task stop() has not
 # reached yet (otherTask.stop(), or pause()+resume() of it) made stop() complete that task a second time -> ValueError /
 # AlreadyCalledError out of Cooperator.stop(), the remaining tasks never completed.  Its precondition arises only in runs that
-# draw the `stop_pending` knob (share of such runs below; VERIF_C11_STOP_PENDING=1 forces it, VERIF_C11_AVOID_KNOWN=1 suppresses it):
+# draw the `stop_pending` knob (share of such runs below; FORCE_STOP_PENDING = True forces it, FORCE_AVOID_KNOWN = True suppresses it):
 STOP_PENDING_P = 0.25
 KNOWN_REENTRANT = ["C11:coop-stop-reentrant:task-completed-by-callback:*"]
+# development switches (module-level constants, never read from the environment): every run draws as if the knob had come out this way
+FORCE_AVOID_KNOWN = False
+FORCE_STOP_PENDING = False
+
+# Genuine defect of the tree as first examined, found by the in-next family (operations issued from inside an iterator's own
+# next()), REPAIRED in /repo 19f183d: a task that is finished
+# while its own next() is on the stack (it calls stop() on itself, or Cooperator.stop(), or a completion callback fired from
+# there stops it) and whose next() then ends with StopIteration, an exception or a Deferred was completed a SECOND time by
+# CooperativeTask._oneWorkUnit: ValueError (list.remove) / AlreadyCalledError / TaskStopped escaped from Cooperator._tick, the
+# tick was not rescheduled (the other running tasks stopped being served) and the recorded completion state was overwritten.
+# Its precondition (a next() that ends in anything but a plain value after the task was finished inside it) arises in the
+# runs that draw the `end_after_finish` knob (share below, 0.25; 0 = never, only for dev-time comparison: such a next() then
+# always returns a plain value).
+END_AFTER_FINISH_P = 0.25
+KNOWN_IN_NEXT = ["C11:finished-in-own-next:*"]
+
+# Outside the statement as DESIGN section 6 reads it (a resume() that balances no pause() of the caller is a caller error), hence
+# OFF: weight of the operation "resume() of a task the caller has not paused while it waits on a Deferred it yielded" (clause
+# unbalanced-resume-while-waiting: must raise NotPaused and leave the task waiting).  The unchanged code accepts such a resume()
+# (the internal pause shares CooperativeTask._pauseCount with the caller's), advances the task while its Deferred is unfired and
+# raises NotPaused inside that Deferred's chain when it fires.  Set to 1 to exercise it.
+UNBALANCED_RESUME_W = 0
 
 
 class ScriptError(Exception):
@@ -174,6 +228,7 @@ class MT:
         self.raised = {}         # op -> exception type seen on the finished task
         self.nexts = 0
         self.steady = False      # its iterator yields plain values for as long as it is asked
+        self.shape = "plain"     # class of its iterator object (see SHAPES)
 
     def runnable(self):
         return self.finished is None and self.user_pauses == 0 and self.waiting is None
@@ -187,12 +242,12 @@ def run(sim):
     started = not sim.draw_bool(0.2, "not_started")
     ntasks0 = sim.draw_int(1, 5, "ntasks0")
     nops = sim.draw_int(10, 70 * sim.depth, "nops")
-    avoid = sim.draw_bool(0.15, "avoid_known") or bool(os.environ.get("VERIF_C11_AVOID_KNOWN"))
+    avoid = sim.draw_bool(0.15, "avoid_known") or FORCE_AVOID_KNOWN
     # re-entrant family: completion callbacks (whenDone / coiterate Deferreds) that call back into the Cooperator and its tasks
     reent = sim.draw_bool(0.6, "reentrant")
     # operations that complete, from such a callback, a task which the running Cooperator.stop() has not reached yet (see KNOWN_REENTRANT)
-    stop_pending = (sim.draw_bool(STOP_PENDING_P, "stop_pending") and STOP_PENDING_P > 0) or bool(os.environ.get("VERIF_C11_STOP_PENDING"))
-    if os.environ.get("VERIF_C11_AVOID_KNOWN") and not os.environ.get("VERIF_C11_STOP_PENDING"):
+    stop_pending = (sim.draw_bool(STOP_PENDING_P, "stop_pending") and STOP_PENDING_P > 0) or FORCE_STOP_PENDING
+    if FORCE_AVOID_KNOWN and not FORCE_STOP_PENDING:
         stop_pending = False
     # exception universe: weight of the BaseException subclasses outside Exception (against 4 for an ordinary Exception); 0 = none
     bare_w = sim.draw_choice([0, 1, 2, 4], "bare_w")
@@ -205,9 +260,22 @@ def run(sim):
     # another task (a task is paused and resumed at once, or a task is added and stopped at once), so that consecutive ticks
     # hardly ever see the same set of running tasks; 0 = ticks and the other operations are drawn independently
     disturb_p = sim.draw_choice([0.0, 0.0, 0.6, 1.0], "disturb_p")
+    # in-next family: with this probability an iterator, before it answers a next(), itself operates on the Cooperator and its
+    # tasks (1..2 tape-chosen operations: pause()/stop() of its OWN task, or any of the operations a completion callback may
+    # issue on the others); at most 6 such next() calls per run; 0 = iterators never call back
+    inner_p = sim.draw_choice([0.0, 0.0, 0.1, 0.3], "inner_p")
+    # a next() inside which its own task was finished may end with StopIteration / an exception / a Deferred (see KNOWN_IN_NEXT)
+    eaf = sim.draw_bool(END_AFTER_FINISH_P, "end_after_finish")
+    end_after_finish = bool(inner_p) and END_AFTER_FINISH_P > 0 and eaf and not FORCE_AVOID_KNOWN
+    # iterator shapes: weight (against 4 for a plain iterator object) of iterator classes with more protocol surface than
+    # __iter__/__next__ - __len__ (items still to come: 0, hence false, once exhausted), __bool__ (false throughout), __eq__
+    # (equal to everything).  The statement says "any set of iterators"; the Cooperator hands the object back, it has no business
+    # asking it anything but next().  0 = plain iterators only
+    odd_w = sim.draw_choice([0, 0, 2, 6], "odd_iter_w")
     sim.config = {"units": units, "started": started, "ntasks0": ntasks0, "nops": nops, "avoid_known": avoid,
                   "reentrant": reent, "stop_pending": stop_pending, "bare_w": bare_w, "steady_p": steady_p,
-                  "spare_steady": spare, "disturb_p": disturb_p}
+                  "spare_steady": spare, "disturb_p": disturb_p, "inner_p": inner_p, "end_after_finish": end_after_finish,
+                  "odd_iter_w": odd_w}
 
     ticks = []
     coop_m = {"started": started, "stopped": False}
@@ -215,7 +283,7 @@ def run(sim):
     outstanding = {}   # did -> (Deferred, MT)
     chained = {}       # did -> the called-but-pending Deferred that was actually yielded (waits on outstanding[did][0])
     st = {"did": 0, "ticks": 0, "pr": 0, "fired": 0, "stopped": 0, "coopstop": 0, "in_tick": False, "finops": 0,
-          "armed": 0, "reacted": 0, "harness_exc": None, "pending_completed": False}
+          "armed": 0, "reacted": 0, "harness_exc": None, "pending_completed": False, "inner": 0, "ended_after_finish": False}
     ctx = []           # which operation of the application is on the stack (innermost last): tick, task_stop, fire, resume, coop_stop
     pending = set()    # tids of the tasks that were running when the Cooperator.stop() now on the stack began and that it has not completed yet
     pend_paused = []   # such tasks that a callback paused in the meantime
@@ -313,6 +381,7 @@ def run(sim):
     class ScriptIter:
         def __init__(self, mt):
             self.mt = mt
+            self.exhausted = False
 
         def __iter__(self):
             return self
@@ -330,6 +399,18 @@ def run(sim):
             if mt.win is not None:
                 n = len(runnables())
                 mt.win = {"ticks": 0, "rem": 0, "app": 0, "nmax": n, "served": {}}
+            if inner_p and st["inner"] < 6 and sim.violation is None and st["harness_exc"] is None and sim.draw_bool(inner_p, "inner?"):
+                # the iterator itself calls back into the Cooperator before it answers
+                st["inner"] += 1
+                sim.fault("operation_from_inside_next")
+                try:
+                    react(mt, "next")
+                except (Violation, StepLimit):
+                    raise
+                except BaseException as e:   # _oneWorkUnit would take it for the iterator's own failure: keep it for the top level (harness error)
+                    st["harness_exc"] = e
+                if mt.finished is not None:
+                    return self.after_finish()
             if mt.steady:
                 sim.event("yield", mt.tid, "value")
                 sim.probe("steady_task_advanced")
@@ -340,6 +421,7 @@ def run(sim):
                 return mt.nexts
             if kind == "exhaust":
                 finish(mt, "done", ("iter", self))
+                self.exhausted = True
                 raise StopIteration()
             if kind == "raise":
                 exc = make_exc("task %d" % mt.tid, "raised_by_iterator")
@@ -347,8 +429,9 @@ def run(sim):
                 raise exc
             if kind == "fired-deferred":
                 # pause+resume inside the Cooperator: the task leaves and re-enters the runnable set
-                left(mt)
-                joined(mt)
+                if mt.runnable():   # (not so if the iterator has just paused its own task)
+                    left(mt)
+                    joined(mt)
                 return defer.succeed(None)
             if kind == "failed-deferred":
                 exc = make_exc("task %d deferred" % mt.tid, "in_failed_deferred")
@@ -357,7 +440,8 @@ def run(sim):
             d = defer.Deferred()
             st["did"] += 1
             did = st["did"]
-            left(mt)
+            if mt.runnable():
+                left(mt)
             mt.waiting = did
             outstanding[did] = (d, mt)
             sim.probe("yielded_deferred")
@@ -370,6 +454,53 @@ def run(sim):
                 chained[did] = outer
                 return outer
             return d
+
+        def after_finish(self):
+            """The task was finished while this next() was on the stack (the iterator stopped its own task or the Cooperator, or a
+            completion callback fired from in here did).  It stays finished the way it was, with the result its Deferreds have
+            fired with, whatever this next() now ends with; nothing may escape from the tick."""
+            mt = self.mt
+            sim.probe("task_finished_inside_its_own_next")
+            kind = "value"
+            if end_after_finish and not mt.steady:
+                kind = sim.draw_weighted([("value", 1), ("exhaust", 3), ("raise", 3), ("deferred", 2), ("fired-deferred", 1)], "next_after_finish")
+            sim.event("yield-after-finish", mt.tid, kind)
+            if kind == "value":
+                return mt.nexts
+            st["ended_after_finish"] = True
+            sim.fault("next_ends_otherwise_than_with_a_value_after_its_task_finished")
+            if kind == "exhaust":
+                self.exhausted = True
+                raise StopIteration()
+            if kind == "raise":
+                raise make_exc("task %d after finishing" % mt.tid, "raised_by_iterator")
+            if kind == "fired-deferred":
+                return defer.succeed(None)
+            return defer.Deferred()   # nobody fires it
+
+    class LenIter(ScriptIter):
+        """A backlog-style iterator: len() = items still to come; empty, hence false, once it is exhausted."""
+
+        def __len__(self):
+            return 0 if self.exhausted else 1
+
+    class FalseIter(ScriptIter):
+        def __bool__(self):
+            return False
+
+    class EqIter(ScriptIter):
+        """Compares equal to everything."""
+
+        def __eq__(self, other):
+            return True
+
+        def __ne__(self, other):
+            return False
+
+        def __hash__(self):
+            return 0
+
+    SHAPES = {"plain": ScriptIter, "len": LenIter, "bool": FalseIter, "eq": EqIter}
 
     # ---------------------------------------------------------------- helpers
     def watch(mt, d):
@@ -393,11 +524,14 @@ def run(sim):
             return None
         d.addBoth(rec)
 
-    def react(src):
-        """Inside a completion callback of task `src`: 1..2 tape-chosen operations on the Cooperator and its tasks.  The model
+    def react(src, where=None):
+        """Inside a completion callback of task `src` - or (where == "next") inside next() of the iterator of the unfinished
+        task `src` -: 1..2 tape-chosen operations on the Cooperator and its tasks.  The model
         was brought up to date before the real call that is now firing the callback, so every operation is judged exactly as
-        at top level; the only extra state is `pending` (tasks a Cooperator.stop() in progress has yet to complete)."""
-        where = ctx[-1] if ctx else "attach"
+        at top level; the only extra state is `pending` (tasks a Cooperator.stop() in progress has yet to complete).  From
+        inside next() the iterator's own task is a candidate like any other, and preferred for pause() and stop()."""
+        if where is None:
+            where = ctx[-1] if ctx else "attach"
         sim.probe("callback_reenters_during_" + where)
         for _ in range(sim.draw_int(1, 2, "nreact")):
             if sim.violation is not None:
@@ -410,6 +544,7 @@ def run(sim):
             pres = [mt for mt in pend_paused if mt.tid in pending]
             nrun = len(runnables())
             can_coop_stop = (not coop_m["stopped"]) and st["coopstop"] < 3 and (nrun <= 1 if avoid else True)
+            own = where == "next" and src.task is not None and src.finished is None
             ops = [("none", 1),
                    ("add", 5 if len(tasks) < MAX_TASKS else 0),
                    ("resume", 5 if resumable else 0),
@@ -421,7 +556,9 @@ def run(sim):
                    ("coop-stop", 2 if can_coop_stop else 0),
                    ("pause-pending", 2 if pend else 0),
                    ("stop-pending", 3 if (pend and stop_pending) else 0),
-                   ("resume-pending", 3 if (pres and stop_pending) else 0)]
+                   ("resume-pending", 3 if (pres and stop_pending) else 0),
+                   ("pause-self", 5 if own else 0),
+                   ("stop-self", 4 if own else 0)]
             op = sim.draw_weighted(ops, "react_op")
             sim.event("react", src.tid, where, op)
             if op == "none":
@@ -433,6 +570,10 @@ def run(sim):
                 sim.probe("task_enters_cooperator_while_it_stops")
             if op == "add":
                 add_task()
+            elif op == "pause-self":
+                op_pause(src)
+            elif op == "stop-self":
+                op_stop(src)
             elif op == "resume":
                 op_resume(sim.draw_choice(resumable, "which"))
             elif op == "fire":
@@ -510,7 +651,13 @@ def run(sim):
         via = sim.draw_choice(["cooperate", "coiterate"], "via") if sim.draw_bool(0.3, "coiterate?") else "cooperate"
         mt = MT(tid, via)
         mt.steady = bool(steady_p) and sim.draw_bool(steady_p, "steady")
-        it = ScriptIter(mt)
+        shape = "plain"
+        if odd_w:
+            shape = sim.draw_weighted([("plain", 4), ("len", odd_w), ("bool", odd_w), ("eq", odd_w)], "iter_shape")
+        if shape != "plain":
+            sim.probe("iterator_shape_" + shape)
+        mt.shape = shape
+        it = SHAPES[shape](mt)
         mt.it = it
         tasks.append(mt)
         sim.event("add", tid, via)
@@ -536,9 +683,19 @@ def run(sim):
         before = [mt for mt in tasks if mt.win is not None]
         st["in_tick"] = True
         ctx.append("tick")
+        st["ended_after_finish"] = False
         try:
             with no_raise("tick"):
-                t.fn()
+                try:
+                    t.fn()
+                except Violation:
+                    raise
+                except CAUGHT as e:
+                    if st["ended_after_finish"]:
+                        sim.fail("finished-in-own-next", "tick-raised:" + type(e).__name__,
+                                 "the scheduler tick raised %s: %s after a task had been finished while its own next() was on the stack and that "
+                                 "next() then ended with StopIteration, an exception or a Deferred" % (type(e).__name__, str(e)[:120]))
+                    raise
         finally:
             ctx.pop()
             st["in_tick"] = False
@@ -585,6 +742,17 @@ def run(sim):
             got = type(e)
         sim.check("resume-unpaused-raises", got is task.NotPaused, "NotPaused", "resume() on an unpaused task raised %r" % (got,))
 
+    def op_resume_waiting(mt):
+        sim.event("resume-unpaused-waiting", mt.tid)
+        sim.probe("resume_unpaused_while_waiting")
+        got = None
+        try:
+            mt.task.resume()
+        except CAUGHT as e:
+            got = type(e)
+        sim.check("unbalanced-resume-while-waiting", got is task.NotPaused, "accepted",
+                  "resume() on task %d, which the caller has not paused and which waits on a Deferred it yielded, raised %r (expected NotPaused)" % (mt.tid, got))
+
     def op_stop(mt):
         sim.event("stop", mt.tid, "waiting" if mt.waiting is not None else "-", mt.user_pauses)
         st["stopped"] += 1
@@ -620,6 +788,10 @@ def run(sim):
 
     def op_whendone(mt):
         sim.event("whenDone", mt.tid)
+        if mt.finished is not None:
+            sim.probe("late_whenDone_" + mt.finished)
+            if mt.finished == "done" and mt.shape in ("len", "bool"):
+                sim.probe("late_whenDone_iterator_is_false")
         with no_raise("whenDone"):
             watch(mt, mt.task.whenDone())
 
@@ -776,6 +948,7 @@ def run(sim):
         resumable = [mt for mt in unfinished if mt.user_pauses > 0]
         unpaused = [mt for mt in unfinished if mt.user_pauses == 0 and mt.waiting is None]
         finished = [mt for mt in handles if mt.finished is not None]
+        waiting_unpaused = [mt for mt in unfinished if mt.user_pauses == 0 and mt.waiting is not None] if UNBALANCED_RESUME_W else []
         nrun = len(runnables())
         can_coop_stop = (not coop_m["stopped"]) and st["coopstop"] < 2 and (nrun <= 1 if avoid else True)
         alive = sum(1 for mt in tasks if mt.finished is None)
@@ -789,7 +962,8 @@ def run(sim):
                ("finished-op", 2 if (finished and st["finops"] < 6) else 0),
                ("resume-unpaused", 1 if unpaused else 0),
                ("coop-start", 3 if (coop_m["stopped"] or not coop_m["started"]) else 0),
-               ("coop-stop", 1 if can_coop_stop else 0)]
+               ("coop-stop", 1 if can_coop_stop else 0),
+               ("resume-waiting", UNBALANCED_RESUME_W if waiting_unpaused else 0)]
         if not any(w for _, w in ops):
             break
         op = sim.draw_weighted(ops, "op")
@@ -818,6 +992,8 @@ def run(sim):
             op_resume_unpaused(sim.draw_choice(unpaused, "which"))
         elif op == "coop-start":
             op_coop_start()
+        elif op == "resume-waiting":
+            op_resume_waiting(sim.draw_choice(waiting_unpaused, "which"))
         else:
             op_coop_stop()
         audit()
@@ -825,6 +1001,18 @@ def run(sim):
 
 
 MUTANTS = [
+    "round 6 (operations from inside next(), iterator shapes):",
+    "task.py whenDone decides 'finished' by the truth value of the recorded result (seeded r6b): CAUGHT whenDone-fires:done (run 28)",
+    "task.py whenDone: 'if self._completionState is None' -> 'if not self._completionState' : SURVIVES (SchedulerError instances are always true: equivalent)",
+    "task.py _oneWorkUnit: 'self.pause()' inlined as '_pauseCount += 1; _cooperator._removeTask(self)' (wrong only for a task that paused itself inside the "
+    "next() that yields the Deferred): CAUGHT no-raise:tick:ValueError (run 27)",
+    "task.py _completeWith: 'if not self._pauseCount' -> 'if self in self._cooperator._tasks or self._pauseCount < 2': CAUGHT whenDone-fires:failed / no-raise:stop:ValueError (run 104)",
+    "task.py Cooperator.cooperate returns the running task whose iterator == the new one: CAUGHT whenDone-not-early:watcher / tick-scheduled:runnable-tasks (run 104; __eq__ shape)",
+    "task.py _completeWith: d.callback(deferredResult or None): CAUGHT whenDone-result:done (run 96; __len__/__bool__ shapes)",
+    "repair of the in-next defect, in /repo 19f183d (_oneWorkUnit completes / pauses only 'if self._completionState is None' after next()): quick tier PASSES with "
+    "END_AFTER_FINISH_P = 0.25 (2663 such next() endings)",
+    "task.py _oneWorkUnit re-checks nothing after next() (the tree as first examined, i.e. 19f183d reverted): finished-in-own-next:tick-raised:ValueError / :AlreadyCalledError / :TaskStopped / "
+    ":SchedulerStopped with END_AFTER_FINISH_P > 0 - genuine defect, REPAIRED in /repo 19f183d, see KNOWN_IN_NEXT",
     "round 5 (steady tasks, disturbance before ticks, relative-service clause, BaseException universe):",
     "task.py _removeTask also restarts the round (self._metarator = iter(self._tasks), seeded r5a): CAUGHT no-starvation:overtaken-by-runnable-neighbour (run 28)",
     "task.py _tasksWhileNotStopped restarts the round at the beginning of every tick: CAUGHT no-starvation:overtaken-by-runnable-neighbour (run 38; needed ~2000 runs before)",
@@ -836,7 +1024,7 @@ MUTANTS = [
     "re-entrant family: task.py _completeWith fires the Deferreds before removing the task from the Cooperator: CAUGHT no-raise:cooperator.stop:AlreadyCalledError / no-raise:stop:ValueError (run 17)",
     "re-entrant family: task.py Cooperator.stop: guard 'if taskObj._completionState is not None: continue' removed (the tree before the fix, see KNOWN_REENTRANT): "
     "CAUGHT coop-stop-reentrant:task-completed-by-callback:ValueError / :AlreadyCalledError; with the guard the quick tier passes with the knob forced on",
-    '(all run with VERIF_C11_AVOID_KNOWN=1 so that the two known defects do not end the runs first)',
+    '(all run with the avoid_known knob forced on - now the constant FORCE_AVOID_KNOWN - so that the two predicted defects, at that time not yet repaired, did not end the runs first)',
     "task.py _oneWorkUnit: 'self.pause()' before addCallbacks removed (task not paused while waiting on its Deferred): CAUGHT advance-only-runnable:waiting-on-deferred",
     'task.py _tasksWhileNotStopped: _metarator re-created every tick (only the first task advances with 1 unit/tick): CAUGHT no-starvation (after ~2000 runs)',
     "task.py CooperativeTask.stop: '_checkFinish()' removed (stop on a finished task completes it again): CAUGHT finished-op-raises",
@@ -846,5 +1034,5 @@ MUTANTS = [
     "task.py resume: 'and self._completionState is None' removed (finished task re-added): CAUGHT advance-only-runnable:finished / yielded-deferred-clean",
     "task.py _tick: trailing 'self._reschedule()' removed: CAUGHT tick-scheduled",
     'task.py _oneWorkUnit: StopIteration completes with TaskFailed(): CAUGHT finished-op-raises:done',
-    'candidate fixes applied together (Cooperator.stop iterates over list(self._tasks); failLater ignores an already completed task): full check PASSES without the avoid knob (16000 runs, 940 late failures after stop)',
+    'repairs of the two predicted defects, in /repo 4620a5f (Cooperator.stop iterates over list(self._tasks); failLater ignores an already completed task): full check PASSES without the avoid knob (16000 runs, 940 late failures after stop)',
 ]
